@@ -10,8 +10,9 @@ every image that meets the explicit, decidable layout predicate `ValidElf` and e
 (`C19_elf_roundtrip`, `C19_elf_preserved`; helper lemmas in `Lemmas/ExeLemmas.lean`); the field access
 lemmas the surgery rests on; and the negation of "a malformed executable is rejected with an error
 rather than a crash" by concrete witnesses, which replay on the real code (known finding C19-F9).
-For **PE** the round trip is proved too, for every image meeting `ValidPe` (`C19_pe_roundtrip`); what is not
-proved for PE is the preservation statement (it is carried by the structural oracle of the check; DESIGN.md, C19) - for small file alignments
+For **PE** the round trip and the preservation statement are proved too, for every image meeting `ValidPe`
+(`C19_pe_roundtrip`, `C19_pe_preserved`); what stays outside the theorems: images outside the two layout predicates, and
+that a loader accepts the result (DESIGN.md, C19) - for small file alignments
 the code was wrong until this session (`C19_pe_small_alignment_repaired`, finding C19-F10, fixed in /repo). -/
 namespace Rj.C19
 open Rj.Exe
@@ -146,6 +147,19 @@ theorem C19_pe_roundtrip (b name payload : Bytes) (v : ValidPe b name payload) :
       alignUp payload.length (pFileAlign b) < payload.length + pFileAlign b := by
   obtain ⟨out, h1, h2⟩ := C19_pe_roundtrip_aux b name payload v
   exact ⟨out, h1, h2, (alignUp_bounds _ _ v.hpl v.hfa).2⟩
+
+/-- **PE preservation, for every valid layout**: in the result, below the end of the old section table every byte is the input's
+except the section count, `SizeOfImage`, `SizeOfHeaders` and the raw-data pointers of the old sections; every byte of the input from
+there on that is not overwritten by the new 40-byte header is found unchanged `pBump b` bytes further on (`pBump` = 0 when there was
+room for the header, else as many whole file alignments as it takes - the repair of C19-F10); and each old section's
+`PointerToRawData` grew by exactly `pBump b`: every old section's raw data is found, unchanged, where its header in the result points. -/
+theorem C19_pe_preserved (b name payload : Bytes) (v : ValidPe b name payload) :
+    ∃ out, addPe b name payload = .ok out ∧
+      (∀ j, j < pEnd b → (∀ i, i < pNum b → ¬ (pHdrs b + i * 40 + 20 ≤ j ∧ j < pHdrs b + i * 40 + 24)) →
+          ¬ (pFh b + 2 ≤ j ∧ j < pFh b + 4) → ¬ (pOpt b + 56 ≤ j ∧ j < pOpt b + 64) → out[j]? = b[j]?) ∧
+      (∀ j, pEnd b + 40 ≤ j + pBump b → j < b.length → pEnd b ≤ j → out[j + pBump b]? = b[j]?) ∧
+      (∀ i, i < pNum b → leVal (slice out (pHdrs b + i * 40 + 20) 4) = leVal (slice b (pHdrs b + i * 40 + 20) 4) + pBump b) :=
+  addPe_preserved b name payload v
 
 /-- Non-vacuity: the two concrete images above meet the layout predicate - one with room for the new header (`pe1`), one
 without and with a file alignment (16) smaller than a section header (`pe2`, the layout of finding C19-F10) -/
